@@ -38,9 +38,40 @@ type Env struct {
 	cells  []*cell
 	lex    *Env
 	dyn    *Env
-	call   bool // frame of a function call (parameters)
-	exited bool // the form that made the frame has returned
-	iter   bool // frame of one iteration of dolist / dotimes
+	call   bool      // frame of a function call (parameters)
+	exited bool      // the form that made the frame has returned
+	iter   bool      // frame of one iteration of dolist / dotimes
+	grp    *seqGroup // frames of one sequential binding form (let*, do*, a lambda list)
+	idx    int
+}
+
+// seqGroup: the frames a sequential binding form opens one after the other.
+type seqGroup struct{ frames []*Env }
+
+func (g *seqGroup) open(lex *Env) *Env {
+	f := &Env{lex: lex, grp: g, idx: len(g.frames)}
+	g.frames = append(g.frames, f)
+	return f
+}
+
+// laterBinding tells whether the lexical search for name, starting at e,
+// passes a frame of a sequential binding form whose form binds the same
+// name further to the right: code that keeps all variables of such a form
+// in one scope would find that later variable instead (labelling only).
+func (e *Env) laterBinding(name string) bool {
+	for f := e; f != nil; f = f.lex {
+		if f.grp != nil {
+			for _, l := range f.grp.frames[f.idx+1:] {
+				if l.local(name) != nil {
+					return true
+				}
+			}
+		}
+		if f.local(name) != nil {
+			return false
+		}
+	}
+	return false
 }
 
 func (e *Env) local(name string) *cell {
@@ -241,6 +272,9 @@ func (ev *Ev) getVar(name string, env *Env) *V {
 		if staleIter {
 			ev.note("loop-variable-after-its-iteration")
 		}
+		if env.laterBinding(name) {
+			ev.note("sequential-binding-later-variable")
+		}
 		if cp {
 			ev.note("closure:captured-read")
 			if esc {
@@ -268,6 +302,9 @@ func (ev *Ev) setVar(name string, v *V, env *Env) {
 		cp, esc := env.how(name)
 		if staleIter {
 			ev.note("loop-variable-after-its-iteration")
+		}
+		if env.laterBinding(name) {
+			ev.note("sequential-binding-later-variable")
 		}
 		if cp {
 			ev.note("closure:captured-write")
@@ -428,7 +465,14 @@ func (ev *Ev) makeLambda(spec []*V, env *Env, name string) *V {
 
 // bindArgs binds the arguments of a call according to the lambda list;
 // init forms see the parameters to their left.
-func (ev *Ev) bindArgs(fn *Func, args []*V, fr *Env) {
+func (ev *Ev) bindArgs(fn *Func, args []*V, fr *Env) *Env {
+	grp := &seqGroup{}
+	fr.grp = grp
+	grp.frames = append(grp.frames, fr)
+	bind := func(name string, v *V) {
+		fr = grp.open(fr)
+		fr.bind(name, v)
+	}
 	n := len(fn.Params)
 	if len(args) < n {
 		fail("program-error", "function %s called with %d arguments, requires %d", fn.Name, len(args), n)
@@ -443,18 +487,18 @@ func (ev *Ev) bindArgs(fn *Func, args []*V, fr *Env) {
 	for _, o := range fn.Opt {
 		switch {
 		case 0 < len(rest):
-			fr.bind(o.Name, rest[0])
+			bind(o.Name, rest[0])
 			rest = rest[1:]
 		case o.Init != nil:
 			ev.note("lambda-list:optional-default")
-			fr.bind(o.Name, ev.eval1(o.Init, fr, "parameter-init"))
+			bind(o.Name, ev.eval1(o.Init, fr, "parameter-init"))
 		default:
-			fr.bind(o.Name, Nil)
+			bind(o.Name, Nil)
 		}
 	}
 	if fn.Rest != "" {
 		ev.note("lambda-list:rest")
-		fr.bind(fn.Rest, List(append([]*V{}, rest...)...))
+		bind(fn.Rest, List(append([]*V{}, rest...)...))
 	}
 	if fn.HasKey {
 		if len(rest)%2 != 0 {
@@ -480,7 +524,7 @@ func (ev *Ev) bindArgs(fn *Func, args []*V, fr *Env) {
 						ev.note("lambda-list:key-twice")
 						continue
 					}
-					fr.bind(kp.Name, rest[i+1])
+					bind(kp.Name, rest[i+1])
 					found = true
 				}
 			}
@@ -489,12 +533,13 @@ func (ev *Ev) bindArgs(fn *Func, args []*V, fr *Env) {
 				ev.note("lambda-list:key-given")
 			case kp.Init != nil:
 				ev.note("lambda-list:key-default")
-				fr.bind(kp.Name, ev.eval1(kp.Init, fr, "parameter-init"))
+				bind(kp.Name, ev.eval1(kp.Init, fr, "parameter-init"))
 			default:
-				fr.bind(kp.Name, Nil)
+				bind(kp.Name, Nil)
 			}
 		}
 	}
+	return fr
 }
 
 // apply calls a function object with evaluated arguments. site is the
@@ -514,8 +559,8 @@ func (ev *Ev) applyFn(fn *Func, args []*V, site *Env, via string) []*V {
 	if fn.Builtin != nil {
 		return fn.Builtin(ev, args)
 	}
-	fr := &Env{lex: fn.Env, dyn: site, call: true}
-	ev.bindArgs(fn, args, fr)
+	fr0 := &Env{lex: fn.Env, dyn: site, call: true}
+	fr := ev.bindArgs(fn, args, fr0)
 	ev.depth++
 	if 400 < ev.depth {
 		fail("limit", "recursion too deep")
@@ -524,7 +569,19 @@ func (ev *Ev) applyFn(fn *Func, args []*V, site *Env, via string) []*V {
 	if 1 < fn.active {
 		ev.note("recursion")
 	}
-	defer func() { ev.depth--; fn.active--; fr.exited = true }()
+	defer func() {
+		ev.depth--
+		fn.active--
+		for f := fr; f != nil && f != fn.Env; f = f.lex {
+			f.exited = true
+		}
+	}()
+	if fn.Name != "" && fn.Builtin == nil && ev.funcs[fn.Name] != fn && ev.funcs[fn.Name] != nil {
+		// kept out of the subset: slip's named functions are one object that a
+		// redefinition updates, so #'f taken before a redefinition calls the
+		// new definition (by design, see Package.DefLambda)
+		fail("outside", "function object of %s called after the name was redefined", fn.Name)
+	}
 	return ev.body(fn.Body, fr, "function-body")
 }
 
@@ -627,13 +684,19 @@ func (ev *Ev) doLoop(args []*V, env *Env, star bool) []*V {
 	}
 	vars, test, results, body := doSpec(args, kind)
 	fr := &Env{lex: env}
+	cells := make([]*cell, len(vars))
 	if star {
-		for _, dv := range vars {
+		// like let*: every variable opens its own frame
+		grp := &seqGroup{}
+		fr = grp.open(env) // anchor: where the first init form is evaluated
+		for i, dv := range vars {
 			v := Nil
 			if dv.init != nil {
 				v = ev.eval1(dv.init, fr, kind+"-init")
 			}
+			fr = grp.open(fr)
 			fr.bind(dv.name, v)
+			cells[i] = fr.cells[0]
 		}
 	} else {
 		vals := make([]*V, len(vars))
@@ -645,6 +708,7 @@ func (ev *Ev) doLoop(args []*V, env *Env, star bool) []*V {
 		}
 		for i, dv := range vars {
 			fr.bind(dv.name, vals[i])
+			cells[i] = fr.cells[i]
 		}
 	}
 	if test.K != KList {
@@ -675,9 +739,9 @@ func (ev *Ev) doLoop(args []*V, env *Env, star bool) []*V {
 		ev.tick()
 		ev.loopBody(body, fr, kind)
 		if star {
-			for _, dv := range vars {
+			for i, dv := range vars {
 				if dv.step != nil {
-					fr.local(dv.name).v = ev.eval1(dv.step, fr, kind+"-step")
+					cells[i].v = ev.eval1(dv.step, fr, kind+"-step")
 				} else {
 					ev.note(kind + "-nostep")
 				}
@@ -693,7 +757,7 @@ func (ev *Ev) doLoop(args []*V, env *Env, star bool) []*V {
 			}
 			for i, dv := range vars {
 				if dv.step != nil {
-					fr.local(dv.name).v = vals[i]
+					cells[i].v = vals[i]
 				}
 			}
 		}
@@ -866,7 +930,8 @@ func init() {
 		"let*": func(ev *Ev, args []*V, env *Env, _ *V) []*V {
 			need(args, 1, -1, "let*")
 			names, inits := bindings(args[0], "let*")
-			cur := env
+			grp := &seqGroup{}
+			cur := grp.open(env) // anchor: where the first init form is evaluated
 			for i, n := range names {
 				v := Nil
 				if inits[i] != nil {
@@ -874,12 +939,9 @@ func init() {
 				}
 				// each binding opens its own frame: a closure made by a
 				// later init sees the earlier variables only
-				fr := &Env{lex: cur}
+				fr := grp.open(cur)
 				fr.bind(n, v)
 				cur = fr
-			}
-			if cur == env {
-				cur = &Env{lex: env}
 			}
 			defer func() {
 				for f := cur; f != env && f != nil; f = f.lex {
